@@ -283,6 +283,7 @@ type respSpec struct {
 	SplitCRLF   bool       `json:"split_crlf"`   // write chunk framing so that CRLF pairs straddle writes
 	CloseAfter  bool       `json:"close_after"`  // origin closes its connection after this response
 	HeadTrailer bool       `json:"head_trailer"` // HEAD reply declaring chunked coding + Trailer
+	DelayS      int        `json:"delay_s"`      // the origin thinks for this long (simulated seconds) before it answers
 	Early       bool       `json:"early"`        // the origin answers as soon as it has the request head; the client uploads the second half of its body only after it has the response
 }
 
@@ -383,8 +384,17 @@ func genResp0(t *tape.Tape, method string, rich bool, last bool) respSpec {
 	if t.Chance(1, 4) {
 		r.Fields = append(r.Fields, h1.Field{Name: "Keep-Alive", Value: "timeout=5"})
 	}
-	if t.Chance(1, 5) {
-		r.Fields = append(r.Fields, h1.Field{Name: "Connection", Value: "X-Resp-Hop"}, h1.Field{Name: "X-Resp-Hop", Value: "hop"})
+	if t.Chance(1, 4) {
+		// (different names in different responses: a mix-up between concurrent messages must be visible)
+		name := []string{"X-Resp-Hop", "X-Resp-Hop-B", "X-Resp-Hop-C"}[t.Intn(3)]
+		r.Fields = append(r.Fields, h1.Field{Name: "Connection", Value: name}, h1.Field{Name: name, Value: "hop"})
+		if t.Chance(1, 3) {
+			other := []string{"X-Resp-Hop", "X-Resp-Hop-B", "X-Resp-Hop-C"}[t.Intn(3)]
+			if other != name {
+				// the same name as an end-to-end field of THIS response (another response may nominate it)
+				r.Fields = append(r.Fields, h1.Field{Name: other, Value: "end-to-end here"})
+			}
+		}
 	}
 	if t.Chance(1, 6) {
 		r.Fields = append(r.Fields, h1.Field{Name: "Proxy-Authenticate", Value: "Basic realm=origin"})
